@@ -1,9 +1,11 @@
 (* C01 - Polygon fill coverage equals the exact 4x4 supersampling model.
    Proved on the model of Rasterizer::{add_edge, rasterize} and the two mask blitters (RasterProofs.v) for every
    rasteriser that received straight edges, every surface size, every position relative to the surface, both winding
-   rules.  The path from DrawTarget::fill to the edge list (apply_path, quarter-grid conversion) and from the mask to
-   the pixel (composite with a solid source) is tied by the correspondence and by the rational oracle of the C01 check;
-   hence the name _partial on the two top theorems: they speak about the coverage mask, not the final pixel. *)
+   rules (theorems 1-6; _partial because they speak about the coverage mask), and end to end from DrawTarget::fill of a
+   polygon with an opaque white source over a transparent surface down to the alpha of every pixel (theorems 7-9,
+   FillProofs.v).  What stays with the correspondence and the rational oracle of the C01 check: that the dot2 integers of
+   poly_segs are the quarter-grid coordinates of the vertices (f32 conversion), and the distance between the
+   fixed-point crossing and the exact crossing folded into one coverage statement (5 gives the bound). *)
 Require Import RQ.Base RQ.Rect RQ.Raster RQ.RasterProofs.
 
 (* (1) antialiased: every byte of the coverage mask is min(255,16K) or 16K-1, K = number of quarter cells of the pixel
@@ -94,3 +96,47 @@ Example C01_triangle :
   (match rasterize blit_mask NonZero r (maskbuf_new 0 0 4 4) with Ok (_, m) => m_buf m | Err _ => [] end)
     = [0; 0; 0; 0;  255; 255; 0; 0;  255; 255; 0; 0;  255; 0; 0; 0;  0].
 Proof. exact example_tri_mask. Qed.
+
+(* ---- end to end: DrawTarget::fill (FillProofs.v) ---- *)
+Require Import RQ.F32 RQ.Pixel RQ.PathF RQ.Shader RQ.Target RQ.FillProofs.
+
+(* (7) the path becomes exactly the list of straight edges poly_segs: every LineTo, the implicit closing edge of every
+   subpath, Close returning to the subpath start, either orientation (swap flag) *)
+Theorem C01_path_is_its_edge_list : forall h t a b r p, is_polygon p = true -> h <> 0 ->
+  rz (apply_path h t (mk_cursor a b r) p) = add_segs r (poly_segs t p).
+Proof. exact apply_path_polygon. Qed.
+Print Assumptions C01_path_is_its_edge_list.
+
+(* (8) antialiased fill of a polygon, opaque white over a transparent w x h surface: the call returns, every pixel inside
+   the path's bounds has alpha min(255,16K) or 16K-1 (and r=g=b=alpha), K = covered quarter cells of the pixel, every
+   pixel outside the bounds stays 0 - wherever the polygon lies relative to the surface *)
+Theorem C01_fill_polygon_coverage : forall w h p, 0 <= w -> 0 < h -> is_polygon p = true ->
+  let r := add_segs (rast_new w h) (poly_segs xf_identity p) in
+  let b := get_bounds r in
+  exists st', fill (dt_new w h (repeat 0 (Z.to_nat (w * h)))) p (Solid white) (mk_opts SrcOver f1 true) = Ok st' /\
+    d_w st' = w /\ d_h st' = h /\ zlen (d_buf st') = w * h /\
+    forall X Y, 0 <= X < w -> 0 <= Y < h ->
+      let v := zn (d_buf st') (Y * w + X) in
+      if r_in b X Y then
+        let K := Kpix (p_winding p) (y0 b * 4) (r_starts r) (x0 b * 4) (y0 b * 4) (Y - y0 b) (X - x0 b) in
+        0 <= K <= 16 /\ (Z.shiftr v 24 = Z.min 255 (16 * K) \/ Z.shiftr v 24 = 16 * K - 1) /\
+        v = gray (Z.shiftr v 24)
+      else v = 0.
+Proof. exact fill_polygon_coverage. Qed.
+Print Assumptions C01_fill_polygon_coverage.
+
+(* (9) antialiasing off: a pixel is fully painted exactly when cell 4p+3 of its first sample row is covered, every other
+   pixel is untouched *)
+Theorem C01_fill_polygon_coverage_aliased : forall w h p, 0 <= w -> 0 < h -> is_polygon p = true ->
+  let r := add_segs (rast_new w h) (poly_segs xf_identity p) in
+  let b := get_bounds r in
+  exists st', fill (dt_new w h (repeat 0 (Z.to_nat (w * h)))) p (Solid white) (mk_opts SrcOver f1 false) = Ok st' /\
+    d_w st' = w /\ d_h st' = h /\ zlen (d_buf st') = w * h /\
+    forall X Y, 0 <= X < w -> 0 <= Y < h ->
+      let v := zn (d_buf st') (Y * w + X) in
+      if r_in b X Y then
+        v = (if cov (p_winding p) (live (y0 b * 4) (r_starts r) (y0 b * 4 + 4 * (Y - y0 b)))
+                    (4 * (X - x0 b) + 3 + x0 b * 4) then white else 0)
+      else v = 0.
+Proof. exact fill_polygon_coverage_aliased. Qed.
+Print Assumptions C01_fill_polygon_coverage_aliased.
